@@ -21,7 +21,7 @@
 //! stdout:
 //!   R <seq> <tid> <id> <OK|ERR|PANIC|PARSE> <text> <spans>
 //!   B <seq> <file:line:op:len:order_sig:canon_sig>,...     (hooked build; one per expansion)
-//!   S <9 shim counters> <env names looked up during expansions> <shim flags> <fs/identity calls during expansions> <their paths/names>
+//!   S <10 shim counters> <env names looked up during expansions> <shim flags> <fs/identity calls during expansions> <their paths/names>
 
 use std::io::{Read, Write};
 use std::sync::mpsc::{channel, Receiver, Sender};
@@ -410,7 +410,7 @@ fn main() {
         let _ = t.3.join();
     }
 
-    let mut c = [0u64; 9];
+    let mut c = [0u64; 10];
     let mut names = String::new();
     let mut flags = 0;
     let mut fs_names = String::new();
@@ -426,7 +426,7 @@ fn main() {
             fs_count = f();
         }
         if let Some(f) = shim.counters {
-            f(c.as_mut_ptr(), 9);
+            f(c.as_mut_ptr(), 10);
         }
         if let Some(f) = shim.names {
             let p = f();
